@@ -3,6 +3,7 @@
 From Coq Require Import List NArith Bool Sorted.
 From V.gen Require Consts.
 From V.C17 Require Import Model Proofs Timed TimedProofs Ingress IngressProofs.
+From V.C17 Require Glue GlueProofs.
 Import ListNotations.
 Open Scope N_scope.
 
@@ -421,3 +422,24 @@ Theorem C17_local_registrations_outlive_provider_keys :
     length (ts_quorum (tfinal c i h)) = 2%nat.
 Proof. exact local_registrations_outlive_provider_keys. Qed.
 Print Assumptions C17_local_registrations_outlive_provider_keys.
+
+(* ---- the oracle prop_ok judges what the theorems state ---- *)
+
+(* a state the oracle accepts satisfies the invariant of C17_bounds_sorted *)
+Theorem C17_oracle_invariant_sound :
+  forall c s, V.C17.Glue.inv_b c s = true -> Inv c s.
+Proof. exact V.C17.GlueProofs.inv_b_sound. Qed.
+Print Assumptions C17_oracle_invariant_sound.
+
+(* and it accepts every state that satisfies it and keeps one entry per provider *)
+Theorem C17_oracle_invariant_complete :
+  forall c s, Inv c s -> Forall (fun kp => NoDup (map p_id (snd kp))) (pkeys s) ->
+  V.C17.Glue.inv_b c s = true.
+Proof. exact V.C17.GlueProofs.inv_b_complete. Qed.
+Print Assumptions C17_oracle_invariant_complete.
+
+(* the provider-list specification the oracle recomputes is the one of C17_put_provider_spec *)
+Theorem C17_oracle_spec_is_theorem_spec :
+  forall n pr ps, V.C17.Glue.spec_put n pr ps = spec_put n pr ps.
+Proof. exact V.C17.GlueProofs.glue_spec_put_eq. Qed.
+Print Assumptions C17_oracle_spec_is_theorem_spec.
